@@ -68,21 +68,21 @@ func (e H2Ev) String() string {
 
 // H2Op is one scripted operation of an endpoint.
 type H2Op struct {
-	Kind    string // headers | data | rst | priority | push | settings | ping | goaway
-	Stream  uint32
-	Fields  []hpack.HeaderField
-	End     bool
-	HasPrio bool
-	Prio    http2.PriorityParam
-	Cuts    []int // header block cut points (fractions in per-mille of the block length)
-	Data    []byte
-	Pad     int // -1: unpadded; >=0: padded with that many bytes
-	Code    uint32
-	Promise uint32
+	Kind     string // headers | data | rst | priority | push | settings | ping | goaway
+	Stream   uint32
+	Fields   []hpack.HeaderField
+	End      bool
+	HasPrio  bool
+	Prio     http2.PriorityParam
+	Cuts     []int // header block cut points (fractions in per-mille of the block length)
+	Data     []byte
+	Pad      int // -1: unpadded; >=0: padded with that many bytes
+	Code     uint32
+	Promise  uint32
 	Settings []http2.Setting
-	Ping    [8]byte
-	Last    uint32
-	Debug   []byte
+	Ping     [8]byte
+	Last     uint32
+	Debug    []byte
 	NeedOpen bool // server op: requires the stream to have been opened by the client
 }
 
@@ -98,17 +98,17 @@ type H2End struct {
 	encb bytes.Buffer
 	enc  *hpack.Encoder
 
-	rbuf    []byte
-	rframe  bytes.Buffer
-	rfr     *http2.Framer
-	dec     *hpack.Decoder
+	rbuf       []byte
+	rframe     bytes.Buffer
+	rfr        *http2.Framer
+	dec        *hpack.Decoder
 	gotPreface bool
-	hdrBuf  []byte
-	hdrEv   *H2Ev
-	RdErr   error
-	EOF     bool
-	RST     bool
-	EOFStep int
+	hdrBuf     []byte
+	hdrEv      *H2Ev
+	RdErr      error
+	EOF        bool
+	RST        bool
+	EOFStep    int
 
 	Script []*H2Op
 	next   int
@@ -127,25 +127,25 @@ type H2End struct {
 	SentFlowConn int
 
 	// receiver side: what this end advertised and granted
-	advInit      []int // initial-window values advertised and possibly in force (un-acked ones included)
-	advFrame     []int // max-frame-size values possibly in force
+	advInit         []int // initial-window values advertised and possibly in force (un-acked ones included)
+	advFrame        []int // max-frame-size values possibly in force
 	unackedSettings [][]http2.Setting
-	GrantStream  map[uint32]int
-	GrantConn    int
-	RecvFlow     map[uint32]int
-	RecvFlowConn int
-	pendStream   map[uint32]int // received, not yet granted back
-	pendConn     int
-	NoAutoGrant  bool
+	GrantStream     map[uint32]int
+	GrantConn       int
+	RecvFlow        map[uint32]int
+	RecvFlowConn    int
+	pendStream      map[uint32]int // received, not yet granted back
+	pendConn        int
+	NoAutoGrant     bool
 
-	opened map[uint32]bool // streams opened by the client as seen by this end
-	rstSeen map[uint32]bool
+	opened     map[uint32]bool // streams opened by the client as seen by this end
+	rstSeen    map[uint32]bool
 	closedSelf bool
 	// Violations of the receiver ledger are reported through these callbacks.
-	OnWindow func(what string, stream uint32, got, allowed int)
+	OnWindow    func(what string, stream uint32, got, allowed int)
 	OnFrameSize func(ev H2Ev, max int)
-	Held bool
-	splits int
+	Held        bool
+	splits      int
 	// HPACK table-size discipline: after this end lowered SETTINGS_HEADER_TABLE_SIZE and the
 	// change was acknowledged, the next header block must start with a dynamic table size update
 	// that respects it (RFC 7541 4.2), unless one has been seen since the SETTINGS were sent.
@@ -166,6 +166,9 @@ func newH2End(k *kernel.K, name string, client bool, c *simnet.Conn) *H2End {
 	e.wfr.AllowIllegalWrites = true
 	e.enc = hpack.NewEncoder(&e.encb)
 	e.rfr = http2.NewFramer(nil, &e.rframe)
+	// x/net's order check does not accept CONTINUATION after PUSH_PROMISE (legal per RFC 7540
+	// 6.6/6.10); this endpoint checks the order of header block fragments itself (onFrame).
+	e.rfr.AllowIllegalReads = true
 	e.rfr.SetMaxReadFrameSize(1<<24 - 1)
 	e.dec = hpack.NewDecoder(4096, nil)
 	e.gotPreface = client // a client end expects no preface from its peer
@@ -514,6 +517,15 @@ func (e *H2End) finishHeaders(end bool) {
 
 func (e *H2End) onFrame(f http2.Frame, ln int) {
 	step := e.k.StepN
+	if cf, ok := f.(*http2.ContinuationFrame); ok {
+		if e.hdrEv != nil && cf.StreamID != e.hdrEv.Stream {
+			e.RdErr = fmt.Errorf("CONTINUATION on stream %d while the header block of stream %d is in progress", cf.StreamID, e.hdrEv.Stream)
+			return
+		}
+	} else if e.hdrEv != nil {
+		e.RdErr = fmt.Errorf("%v frame on stream %d in the middle of the header block of stream %d", f.Header().Type, f.Header().StreamID, e.hdrEv.Stream)
+		return
+	}
 	switch f := f.(type) {
 	case *http2.HeadersFrame:
 		e.hdrEv = &H2Ev{Kind: "headers", Stream: f.StreamID, End: f.StreamEnded(), HasPrio: f.HasPriority(), Prio: f.Priority, Frames: 1, Step: step, FrameLen: ln}
